@@ -1575,6 +1575,7 @@ class SSHServerChannel(SSHChannel, Generic[AnyStr]):
         self._term_size = (0, 0, 0, 0)
         self._term_modes: TermModes = {}
         self._x11_display: Optional[str] = None
+        self._session_started = False
 
         self.logger.info('New SSH session requested')
 
@@ -1731,6 +1732,12 @@ class SSHServerChannel(SSHChannel, Generic[AnyStr]):
                        subsystem: Optional[str] = None) -> bool:
         """Tell the session what type of channel is being requested"""
 
+        if self._session_started:
+            # Only one shell, command or subsystem can be started
+            # on a channel
+            self.logger.info('  Session already started')
+            return False
+
         forced_command = \
             cast(str, self._conn.get_certificate_option('force-command'))
 
@@ -1751,6 +1758,7 @@ class SSHServerChannel(SSHChannel, Generic[AnyStr]):
         else:
             result = self._session.shell_requested()
 
+        self._session_started = bool(result)
         return result
 
     def _process_shell_request(self, packet: SSHPacket) -> bool:
